@@ -524,6 +524,29 @@ class Probe:
             self.ctx.fail(op, symptom, detail, variant=variant, case=self.case)
         return bool(cond)
 
+    def again(self, op, f, first, variant=""):
+        """depth 2: write into every stored value of an earlier result of the generator, call it again with the same
+        arguments: the new object must be what the first one was (a generated object is nobody else's storage)."""
+        try:
+            snap = np.array(O.dense_of(first), dtype=float)
+            buf = first.data if hasattr(first, "data") else first.vals
+            if not isinstance(buf, np.ndarray) or buf.size == 0 or not buf.flags.writeable:
+                return
+            buf[...] = buf + 1
+        except Exception:  # noqa: BLE001
+            return
+        ok, second = self.call(op, f, variant + ":second_call")
+        if not ok:
+            return
+        try:
+            got = np.array(O.dense_of(second), dtype=float)
+        except Exception as e:  # noqa: BLE001
+            self.ctx.fail(op, "malformed_result", f"{type(e).__name__}: {e}", variant=variant + ":second_call", case=self.case)
+            return
+        if got.shape != snap.shape or not np.array_equal(got, snap):
+            self.ctx.fail(op, "history_dependent", "after writing into an earlier result the same call returns other entries",
+                          variant=variant + ":second_call", case=self.case)
+
 
 def _shape_ok(obj, want):
     try:
@@ -609,9 +632,11 @@ def _run_dense(case, ctx):
     ok, T = p.call("tenones", lambda: ttb.tenones(shape), "default")
     if ok:
         _check_dense(p, "tenones", T, np.ones(shape), "default")
+        p.again("tenones", lambda: ttb.tenones(shape), T, "default")
     ok, T = p.call("tenzeros", lambda: ttb.tenzeros(shape), "default")
     if ok:
         _check_dense(p, "tenzeros", T, np.zeros(shape), "default")
+        p.again("tenzeros", lambda: ttb.tenzeros(shape), T, "default")
 
     # tenrand, seeded: in [0,1), exact shape, same seed => same tensor
     for rs in range(4):
@@ -761,6 +786,9 @@ def _run_diag(case, ctx):
                 ok, T = p.call("tendiag", lambda: ttb.tendiag(mk(), shape, order=order), v)
             if ok:
                 _check_dense(p, "tendiag", T, refs.get(ename, A), v)
+                if ename == "array":
+                    p.again("tendiag", (lambda: ttb.tendiag(mk(), order=order)) if shape is None else
+                            (lambda: ttb.tendiag(mk(), shape, order=order)), T, v)
         v = ename
         if shape is None:
             ok, S = p.call("sptendiag", lambda: ttb.sptendiag(mk()), v)
@@ -768,6 +796,9 @@ def _run_diag(case, ctx):
             ok, S = p.call("sptendiag", lambda: ttb.sptendiag(mk(), shape), v)
         if ok and _check_sparse(p, "sptendiag", S, refs.get(ename, A), v):
             ctx.outcome([S.subs, S.vals, list(S.shape)])
+            if ename == "array":
+                p.again("sptendiag", (lambda: ttb.sptendiag(mk())) if shape is None else (lambda: ttb.sptendiag(mk(), shape)),
+                        S, v)
 
 
 def _eye_ref(m, size):
@@ -861,6 +892,7 @@ def _run_eye(case, ctx):
         p.expect("teneye", rm.close(d, want, rtol=1e-15), "wrong_value",
                  f"differs from the symmetrised delta product, max {float(np.max(np.abs(d - want))):.3e}", order)
         ctx.outcome(d)
+        p.again("teneye", lambda: ttb.teneye(m, size, order=order), T, order)
 
 
 # =====================================================================================
